@@ -209,6 +209,9 @@ def set_state(simu, info, case, rng):
         dof_n = simu.Get_dof_n(pt)
         n = mesh.Nn * dof_n
         amp = 1e-2
+        if info["base"] in ("elastic", "thermal", "beam") and case.get("index", 0) % 3 == 2:
+            # another order of magnitude of the state (micro-strains, or a unit system with tiny lengths): every relation is relative
+            amp = 1e-2 * float(10.0 ** rng.choice([-4, -7]))
         if case["state"] == "affine" and dof_n == info["dim"] and info["base"] not in ("beam", "weakforms"):
             A = rng.normal(size=(dof_n, dof_n)) * amp
             u = (X[:, :dof_n] @ A.T + rng.normal(size=dof_n) * amp).ravel()
